@@ -742,6 +742,39 @@ def _operator_pipe(mods, P, cur, ci, fl, effs, fmap, fail, col):
                 S.legs[k].test_equal(T.legs[k])
             except ValueError:
                 fail('two-pipes:split_legs:legs', got=HL.proj_leg(S.legs[k]), exp=HL.proj_leg(T.legs[k]), how=what)
+    # the same for the tensor without any stored block: legs, shape and labels come back in the original order
+    try:
+        Z = npc.zeros(list(T.legs), dtype=np.int64, labels=ket + bra)
+        Zc = Z.combine_legs([ket, bra], pipes=[cur, cur.conj()])
+    except Exception as e:
+        fail('two-pipes:zero tensor:combine_legs', got='%s: %s' % (type(e).__name__, str(e)[:300]), exc=type(e).__name__)
+    if Zc.shape != (N, N) or Zc.stored_blocks != 0:
+        fail('two-pipes:zero tensor:combine_legs', got=[list(Zc.shape), int(Zc.stored_blocks)], exp=[N, N])
+    for what, axes in (('index order [0,1]', [0, 1]), ('index order [1,0]', [1, 0]), ('label order bra,ket', [lb, lk]), ('all pipes', None)):
+        try:
+            S = Zc.split_legs(axes)
+            S.test_sanity()
+            Sd = S.to_ndarray()
+        except Exception as e:
+            fail('two-pipes:zero tensor:split_legs', got='%s: %s' % (type(e).__name__, str(e)[:300]), exc=type(e).__name__, how=what)
+        if tuple(S.shape) != tuple(lens + lens) or Sd.shape != dense0.shape or Sd.any():
+            fail('two-pipes:zero tensor:split_legs', got=dict(axes=str(axes), shape=list(S.shape)), exp=lens + lens, how=what)
+        if S.get_leg_labels() != ket + bra or len(S.legs) != 2 * n:
+            fail('two-pipes:zero tensor:split_legs:labels', got=S.get_leg_labels(), exp=ket + bra, how=what)
+        for k in range(2 * n):
+            try:
+                S.legs[k].test_equal(T.legs[k])
+            except ValueError:
+                fail('two-pipes:zero tensor:split_legs:legs', got=HL.proj_leg(S.legs[k]), exp=HL.proj_leg(T.legs[k]), how=what, leg=k)
+    # new_axes counted from the end, given as a tuple (as tenpy.algorithms.network_contractor does)
+    try:
+        C2 = T.combine_legs([ket, bra], new_axes=(-2, -1), pipes=[cur, cur.conj()])
+        ok = np.array_equal(C2.to_ndarray(), M) and C2.get_leg_labels() == [lk, lb]
+        got = C2.get_leg_labels()
+    except Exception as e:
+        ok, got = False, '%s: %s' % (type(e).__name__, str(e)[:200])
+    if not ok:
+        fail('combine_legs(new_axes tuple)', got=got, stop=False)
     col.note('operator_tests')
 
 
